@@ -101,13 +101,4 @@ def check(run):
     seqs = [[l] for l in lines]
     run.differential("graph-ops", seqs, classify=classify, shrink=False)
 
-    def confirm(f):
-        w = f["witness"]
-        impl = core.run_impl(run.harness(), w["ops"])
-        if impl[w["at"]] == w["observed"]:
-            return True, ""
-        spec = core.run_lean("spec", w["ops"])
-        if impl[w["at"]] == spec[w["at"]]:
-            return False, "the witness now follows circom's semantics"
-        return False, "DIFFERENT: " + impl[w["at"]][:200]
-    run.confirm_findings(confirm)
+    run.confirm_witnesses()
